@@ -116,7 +116,7 @@ Definition r_clear_screen (r : rstate) : rstate * list tok := (r_repaint r, [TED
 
 Definition vis_tok (r : rstate) : tok := if r_cursorHidden r then TReset 25 else TSet 25.
 
-Definition r_enter_alt (r : rstate) : rstate * list tok :=
+Definition r_enter_alt_core (r : rstate) : rstate * list tok :=
   if r_alt r then (r, [])
   else
     (r_repaint {| r_buf := r_buf r; r_queued := r_queued r; r_lastRender := r_lastRender r; r_lastLines := r_lastLines r;
@@ -124,6 +124,12 @@ Definition r_enter_alt (r : rstate) : rstate * list tok :=
                   r_cursorHidden := r_cursorHidden r; r_alt := true; r_bp := r_bp r; r_focus := r_focus r;
                   r_width := r_width r; r_height := r_height r |},
      [TSet 1049; TEDall; THome; vis_tok r]).
+
+(* enterAltScreen: lines printed so far belong to the main screen and are written out (one flush) before the switch *)
+Definition queue_empty (r : rstate) : bool := match r_queued r with [] => true | _ => false end.
+Definition r_enter_alt (r : rstate) : rstate * list tok :=
+  if r_alt r || queue_empty r then r_enter_alt_core r
+  else let '(r1, t1) := r_flush r in let '(r2, t2) := r_enter_alt_core r1 in (r2, t1 ++ t2).
 
 Definition r_exit_alt (r : rstate) : rstate * list tok :=
   if negb (r_alt r) then (r, [])
